@@ -101,3 +101,64 @@ def balanced_stream(rng, names, depth=0, maxdepth=4, void=()):
         else:
             out.append({"type": "Comment", "data": text(rng)})
     return out
+
+
+# ------------------------------------------------------------------------------------------
+# G-soup: markup strings
+HTML_TAGS = ["a", "b", "i", "p", "div", "span", "table", "tr", "td", "th", "tbody", "thead", "tfoot", "caption",
+             "colgroup", "col", "select", "option", "optgroup", "ul", "ol", "li", "dl", "dt", "dd", "pre", "textarea",
+             "title", "style", "script", "noscript", "xmp", "iframe", "noembed", "noframes", "plaintext", "br", "hr",
+             "img", "input", "meta", "link", "form", "button", "h1", "h2", "nobr", "font", "em", "strong", "ruby",
+             "rt", "rp", "svg", "math", "html", "head", "body", "frameset", "frame", "applet", "marquee", "object",
+             "listing", "image", "isindex", "template", "main", "section", "address", "base", "embed", "area"]
+FOREIGN_TAGS = ["svg", "math", "foreignObject", "desc", "title", "mi", "mo", "mn", "ms", "mtext", "annotation-xml",
+                "g", "path", "circle", "mglyph", "malignmark", "style", "script", "font", "a"]
+ATTR_SRC = [' id=x', ' class="a b"', " title='q'", ' href="http://e/x?a=1&b=2"', ' checked', ' disabled=disabled',
+            ' type=hidden', ' encoding=text/html', ' color=red', ' xlink:href="#a"', ' xml:lang=en', ' A=1 a=2',
+            ' style="color: red"', ' data-x="<>&"', " v='\"'", ' charset=utf-8', ' http-equiv=content-type content="text/html; charset=x"',
+            ' onclick="x"', ' definitionurl=x', ' x="&amp;&lt;"', ' src=javascript:1']
+TEXT_SRC = ["x", "hello world", " ", "\n", "  \t\n ", "&amp;", "&lt;b&gt;", "&notit;", "&#x41;", "&#0;", "&#x80;", "&bogus;", "&",
+            "<", ">", "a &#32; b", "é", "\U0001F600", "\x00", "--", "]]>", "\x0c", "=\"'`"]
+MISC_SRC = ["<!-- c -->", "<!---->", "<!-- a--b -->", "<!>", "<?pi?>", "<![CDATA[x]]>", "<!DOCTYPE html>",
+            '<!DOCTYPE html PUBLIC "-//W3C//DTD HTML 4.01//EN" "http://www.w3.org/TR/html4/strict.dtd">',
+            "<!doctype html SYSTEM 'about:legacy-compat'>", "</", "</ >", "<a/>", "<br/>", "< "]
+
+
+def soup(rng, maxparts=12, foreign=True):
+    parts = []
+    stack = []
+    for _ in range(rng.randint(0, maxparts)):
+        r = rng.random()
+        if r < 0.38:
+            pool = FOREIGN_TAGS if (foreign and stack and stack[-1] in ("svg", "math", "g", "foreignObject", "annotation-xml")
+                                    and rng.random() < 0.6) else HTML_TAGS
+            t = rng.choice(pool)
+            if rng.random() < 0.08:
+                t = t.upper()
+            a = "".join(rng.choice(ATTR_SRC) for _ in range(rng.choice([0, 0, 0, 1, 1, 2])))
+            parts.append("<%s%s%s>" % (t, a, "/" if rng.random() < 0.05 else ""))
+            stack.append(t.lower())
+        elif r < 0.62:
+            if stack and rng.random() < 0.7:
+                t = stack.pop(rng.choice([-1, -1, -1, 0]) if len(stack) > 1 else -1)
+            else:
+                t = rng.choice(HTML_TAGS)
+            parts.append("</%s>" % t)
+        elif r < 0.90:
+            parts.append(rng.choice(TEXT_SRC))
+        else:
+            parts.append(rng.choice(MISC_SRC))
+    return "".join(parts)
+
+
+def parse_real(text, tb="etree", fragment=None, **kw):
+    import html5lib
+    p = html5lib.HTMLParser(tree=html5lib.getTreeBuilder(tb), namespaceHTMLElements=kw.pop("ns", True))
+    if fragment is not None:
+        return p.parseFragment(text, container=fragment, **kw)
+    return p.parse(text, **kw)
+
+
+def walk_real(tree, kind="etree"):
+    import html5lib
+    return list(html5lib.getTreeWalker(kind)(tree))
